@@ -12,6 +12,7 @@ import (
 	"strconv"
 	"strings"
 	"sync"
+	"sync/atomic"
 	"time"
 
 	"github.com/enbility/spine-go/model"
@@ -278,11 +279,191 @@ func (sw *schedWorld) exec(op hx.Zs) []hx.Zs {
 		return project(sw.w.Exec(stack.OpBindDelete(p, 1000+sw.ctr, true, c, s)))
 	case 54: // ListB p
 		return project(sw.w.Exec(stack.OpListBinds(op[1])))
+	case 57: // Race n p1 c1 t1 p2 c2 t2 srv
+		if len(op) != 9 {
+			return []hx.Zs{{40, 9}}
+		}
+		return sw.race(op[1], [2][3]int64{{op[2], op[3], op[4]}, {op[5], op[6], op[7]}}, op[8])
 	case 55: // OnFeat f
 		n := len(sw.w.Local().BindingManager().BindingsOnFeature(*featAddr("d0", op[1])))
 		return append(sw.flush(), hx.Zs{39, int64(n)})
 	}
 	return []hx.Zs{{40, 9}}
+}
+
+// race: n rounds of two binding requests (different peers, one server feature) handled by two
+// goroutines that announce themselves and then spin WITHOUT yielding until both have announced
+// (tight start: the requests enter AddBinding within a few hundred nanoseconds of each other);
+// they are not registered with the scheduler, so the yield hook does not park them: the runtime
+// picks the interleaving of the critical sections.  After each round: count what was granted
+// and refused, count the bindings on the feature, delete the granted binding(s).
+func (sw *schedWorld) race(n int64, q [2][3]int64, srv int64) []hx.Zs {
+	known := func(p int64) bool { return p >= 1 && p <= nSchedPeers }
+	if !known(q[0][0]) || !known(q[1][0]) || q[0][0] == q[1][0] {
+		return []hx.Zs{{33}}
+	}
+	var granted, refused, over int64
+	var extra []hx.Zs
+	addr := *featAddr("d0", srv)
+	// during a race the yield hook is a second, finer rendezvous instead of a parking place: a
+	// request that reaches AddBinding.checked spins (bounded, without yielding) until the other
+	// one is there too, then both run on; a request refused before the hook never arrives and the
+	// other one gives up waiting after the bound
+	var arrived *int32
+	spine.VerifSetYield(func(point string) {
+		if point != "AddBinding.checked" || arrived == nil {
+			return
+		}
+		atomic.AddInt32(arrived, 1)
+		for spins := 0; atomic.LoadInt32(arrived) < 2 && spins < 200000; spins++ {
+		}
+	})
+	defer spine.VerifSetYield(sw.sc.yield)
+	for i := int64(0); i < n; i++ {
+		msgs := [2][]byte{sw.bindRequest(q[0][0], srv, q[0][1], q[0][2]), sw.bindRequest(q[1][0], srv, q[1][1], q[1][2])}
+		arrived = nil
+		if i%2 == 0 { // every other round runs without the second rendezvous
+			arrived = new(int32)
+		}
+		var ready int32
+		var wg sync.WaitGroup
+		wg.Add(2)
+		for k := 0; k < 2; k++ {
+			go func(k int) {
+				defer wg.Done()
+				atomic.AddInt32(&ready, 1)
+				for spins := 0; atomic.LoadInt32(&ready) < 2; spins++ {
+					if spins > 2000000 {
+						runtime.Gosched()
+					}
+				}
+				sw.w.InjectRaw(q[k][0], msgs[k])
+			}(k)
+		}
+		wg.Wait()
+		cnt := len(sw.w.Local().BindingManager().BindingsOnFeature(addr))
+		if cnt > 1 {
+			over++
+		}
+		for _, o := range sw.flush() {
+			switch {
+			case o[0] == 36:
+				granted++
+				sw.ctr++
+				c := stack.FAddr{Dev: o[1] + 1, Ent: []int64{1}, Feat: o[3] + 1}
+				s := stack.FAddr{Dev: 1, Ent: []int64{1}, Feat: o[2] + 1}
+				if !has(project(sw.w.Exec(stack.OpBindDelete(o[1], 1000+sw.ctr, true, c, s))), 37) {
+					extra = append(extra, hx.Zs{40, 5})
+				}
+			case o[0] == 35 && o[2] == 1:
+				refused++
+			case o[0] == 35 && o[2] == 0: // the acknowledgement of a granted request
+			default:
+				if len(extra) < 4 {
+					extra = append(extra, o)
+				}
+			}
+		}
+	}
+	outcomes["race-rounds"] += int(n)
+	outcomes["race-rounds-with-more-than-one-binding"] += int(over)
+	return append([]hx.Zs{{41, n, granted, refused, over}}, extra...)
+}
+
+// ---------------------------------------------------------------- the binding list as reported over the wire
+
+type capture struct {
+	mu   sync.Mutex
+	msgs [][]byte
+}
+
+func (c *capture) WriteShipMessageWithPayload(msg []byte) {
+	c.mu.Lock()
+	c.msgs = append(c.msgs, append([]byte(nil), msg...))
+	c.mu.Unlock()
+}
+
+func encAddr(a *model.FeatureAddressType) hx.Zs {
+	z := hx.Zs{0}
+	if a == nil {
+		return hx.Zs{0, 0, 0}
+	}
+	if a.Device != nil {
+		var k int64 = 998
+		fmt.Sscanf(string(*a.Device), "d%d", &k)
+		z[0] = k + 1
+	}
+	z = append(z, int64(len(a.Entity)))
+	for _, e := range a.Entity {
+		z = append(z, int64(e))
+	}
+	if a.Feature != nil {
+		return append(z, int64(*a.Feature)+1)
+	}
+	return append(z, 0)
+}
+
+// wireList: peer p calls nodeManagementBindingData; the call travels through
+// DeviceRemote.HandleSpineMesssage -> DeviceLocal.ProcessCmd -> NodeManagement.processReadBindingData
+// and the reply datagram is parsed.  harness/stack projects replies to a bare marker, so the
+// call is sent over a second connection object of the same SKI whose writer this runner owns
+// (BindingManager.Bindings selects by SKI; the reply is what the peer would be sent).
+func wireList(w *stack.World, p int64) []hx.Zs {
+	cp := &capture{}
+	shadow := spine.NewDeviceRemote(w.Local(), stack.Ski(p), spine.NewSender(cp))
+	cls := model.CmdClassifierTypeCall
+	h := model.HeaderType{
+		SpecificationVersion: &spine.SpecificationVersion,
+		AddressSource:        nmAddr(devOf(p)),
+		AddressDestination:   nmAddr("d0"),
+		MsgCounter:           util.Ptr(model.MsgCounterType(7777)),
+		CmdClassifier:        &cls,
+	}
+	cmd := model.CmdType{NodeManagementBindingData: &model.NodeManagementBindingDataType{}}
+	b, err := json.Marshal(model.Datagram{Datagram: model.DatagramType{Header: h, Payload: model.PayloadType{Cmd: []model.CmdType{cmd}}}})
+	if err != nil {
+		panic(err)
+	}
+	func() {
+		defer func() {
+			if e := recover(); e != nil {
+				cp.msgs = append(cp.msgs, nil)
+			}
+		}()
+		_, _ = shadow.HandleSpineMesssage(b)
+	}()
+	var out []hx.Zs
+	replies := 0
+	for _, m := range cp.msgs {
+		var d model.Datagram
+		if m == nil || json.Unmarshal(m, &d) != nil || len(d.Datagram.Payload.Cmd) != 1 || d.Datagram.Header.CmdClassifier == nil {
+			out = append(out, hx.Zs{4, p, 99})
+			continue
+		}
+		c := d.Datagram.Payload.Cmd[0]
+		if *d.Datagram.Header.CmdClassifier != model.CmdClassifierTypeReply || c.NodeManagementBindingData == nil {
+			out = append(out, hx.Zs{4, p, 98})
+			continue
+		}
+		replies++
+		for _, e := range c.NodeManagementBindingData.BindingEntry {
+			var id int64 = -1
+			if e.BindingId != nil {
+				id = int64(*e.BindingId)
+			}
+			z := hx.Zs{8, id}
+			z = append(z, encAddr(e.ServerAddress)...)
+			out = append(out, append(z, encAddr(e.ClientAddress)...))
+		}
+	}
+	if replies != 1 {
+		out = append(out, hx.Zs{4, p, 97})
+	}
+	outcomes["wire-listings"]++
+	if len(out) >= 2 {
+		outcomes["wire-listings-with-two-or-more-bindings"]++
+	}
+	return out
 }
 
 // ---------------------------------------------------------------- implementation: one real device per component
@@ -357,7 +538,21 @@ func (m *impl) Exec(op hx.Zs) []hx.Zs {
 	if len(op) == 0 {
 		return nil
 	}
-	if op[0] >= 51 && op[0] <= 55 {
+	if op[0] == 56 { // the binding list of peer p as reported over the wire
+		if len(op) != 2 {
+			return []hx.Zs{{4, 0, 96}}
+		}
+		if m.sw == nil {
+			m.sw = stack.New()
+		}
+		out := wireList(m.sw, op[1])
+		m.sw.Exec(hx.Zs{0})
+		if m.bw != nil {
+			m.bw.flush()
+		}
+		return out
+	}
+	if (op[0] >= 51 && op[0] <= 55) || op[0] == 57 {
 		if m.bw == nil {
 			m.bw = newSchedWorld()
 		}
@@ -395,6 +590,58 @@ func opEnd(t int64) hx.Zs                     { return hx.Zs{52, t} }
 func opUnbind(p, srv, cli int64) hx.Zs        { return hx.Zs{53, p, srv, cli} }
 func opListB(p int64) hx.Zs                   { return hx.Zs{54, p} }
 func opOnFeat(f int64) hx.Zs                  { return hx.Zs{55, f} }
+func opWire(p int64) hx.Zs                    { return hx.Zs{56, p} }
+func opRace(n, p1, c1, t1, p2, c2, t2, srv int64) hx.Zs {
+	return hx.Zs{57, n, p1, c1, t1, p2, c2, t2, srv}
+}
+
+// genRace: free-running overlaps.  Mostly two valid requests of different peers for one unbound
+// server feature (the case in which the single-binding rule is at stake), now and then an invalid
+// request, a bound feature, a parked third request; counts and listings in between.
+func genRace(r *hx.Rng, tier string) []hx.Zs {
+	var h []hx.Zs
+	rounds := int64(r.Range(40, 120))
+	if tier == "thorough" {
+		rounds = int64(r.Range(100, 300))
+	}
+	for k := 0; k < r.Range(2, 4); k++ {
+		srv := int64([]int{1, 2, 4}[r.Intn(3)])
+		typ := srv
+		if srv == 4 {
+			typ = int64(r.Range(1, 2))
+		}
+		p1 := int64(r.Range(1, nSchedPeers))
+		p2 := p1%nSchedPeers + 1
+		c1, c2 := typ, typ
+		if r.Chance(1, 4) {
+			c2 = 4
+		}
+		switch r.Pick(12, 2, 2, 1, 1) {
+		case 1: // one invalid request
+			c2 = int64(r.Range(1, 6))
+			distSched["race-with-invalid-request"]++
+		case 2: // the feature is bound already: both refused in every round
+			h = append(h, opBegin(4, p2, srv, c2, typ), opEnd(4))
+			rounds /= 4
+			distSched["race-on-bound-feature"]++
+		case 3: // a third request for the same feature stays parked during the race
+			p3 := p2%nSchedPeers + 1
+			h = append(h, opBegin(3, p3, srv, typ, typ))
+			distSched["race-with-parked-request"]++
+		case 4:
+			srv = int64(r.Range(1, 5))
+		}
+		h = append(h, opRace(rounds, p1, c1, typ, p2, c2, typ, srv), opOnFeat(srv))
+		if r.Bool() {
+			h = append(h, opEnd(3), opOnFeat(srv))
+		}
+		distSched["race"]++
+	}
+	for p := int64(1); p <= nSchedPeers; p++ {
+		h = append(h, opListB(p))
+	}
+	return h
+}
 
 // the schedule refuting the pinned AddBinding: both requests pass the check before either inserts
 func witnessSchedule() []hx.Zs {
@@ -571,7 +818,8 @@ func genSeq(r *hx.Rng, tier string) []hx.Zs {
 	}
 	listAll := func() {
 		for _, p := range pl.Peers {
-			h = append(h, stack.OpListBinds(p.Ski))
+			// the registry's list and the list reported to the peer over the wire
+			h = append(h, stack.OpListBinds(p.Ski), opWire(p.Ski))
 		}
 	}
 	n := r.Range(10, 50)
@@ -790,7 +1038,22 @@ func genSeq(r *hx.Rng, tier string) []hx.Zs {
 	return h
 }
 
+// withWire: every listing of the registry is followed by the list reported over the wire
+func withWire(h []hx.Zs) []hx.Zs {
+	var out []hx.Zs
+	for _, op := range h {
+		out = append(out, op)
+		if len(op) == 2 && op[0] == 15 {
+			out = append(out, opWire(op[1]))
+		}
+	}
+	return out
+}
+
 func gen(r *hx.Rng, tier string, i int) []hx.Zs {
+	if i%16 == 15 {
+		return genRace(r, tier)
+	}
 	switch i % 4 {
 	case 1:
 		return genSched(r, tier)
@@ -802,16 +1065,18 @@ func gen(r *hx.Rng, tier string, i int) []hx.Zs {
 	}
 	if i%8 == 4 {
 		// two peers that cannot be told apart by address delete their own and each other's bindings
-		return stack.Twins(r, true)
+		return withWire(stack.Twins(r, true))
 	}
 	return genSeq(r, tier)
 }
 
 func fixed(tier string) [][]hx.Zs {
-	return [][]hx.Zs{witnessSchedule()}
+	return [][]hx.Zs{witnessSchedule(),
+		// two valid requests of peers 1 and 2 for the unbound feature 1, free-running
+		{opRace(400, 1, 1, 1, 2, 1, 1, 1), opOnFeat(1), opListB(1), opListB(2)}}
 }
 
-var opNames = map[int64]string{51: "sched-begin", 52: "sched-end", 53: "sched-unbind", 54: "sched-list", 55: "sched-bindings-on-feature"}
+var opNames = map[int64]string{56: "wire-list-bindings", 57: "sched-race", 51: "sched-begin", 52: "sched-end", 53: "sched-unbind", 54: "sched-list", 55: "sched-bindings-on-feature"}
 
 func main() {
 	for k, v := range stack.OpNames {
